@@ -136,6 +136,10 @@ UNITS["C14"] = [
 ]
 
 UNITS["C09"] = [
+    dict(kind="kani", name="c09_pack", crate="kani/c09_pack", use_repo_lock=True,
+         harnesses=[dict(name="width_rule_i64", complete=True, bound="none: full i64 domain, the only loop is the 8-iteration reference loop (unwinding assertions on)")],
+         trusted=["real `bytes` crate from the cargo registry; SqliteValue Text/Blob payload types replaced by String/Vec<u8> in this harness crate"],
+         assumptions=["the extension's packing rule is taken from its documentation: minimal big-endian width of the value seen as u64"]),
     dict(kind="verus", name="c09_readers", template="specs/c09_readers.vrs",
          under_contract=["Changeset::read_from", "SyncNeedV1::read_from", "SyncStateV1::read_from", "SqliteValue::read_from"],
          vacuity=["Changeset::read_from", "SyncNeedV1::read_from", "SyncStateV1::read_from", "SqliteValue::read_from"], replay="c09_readers",
